@@ -183,6 +183,10 @@ V("c06-n-commuted-sum", "C06", "pass", edits=[(UK, "self.est_x = self.pred_x + s
 FV = "sensors/field_of_view.py"
 SB = "sensors/sensor_base.py"
 SU = "physics/sensor_utils.py"
+SUF = "physics/sensor_utils.py"
+V("c14-galactic-cosine-form-polarity-flipped", "C14", "violation", "C14.R3", edits=[(SUF, "    return boresight_belt_angle >= cone_angle", "    return dot(GALACTIC_CENTER_ECI[:3], boresight_eci_vector) >= cos(cone_angle) * norm(GALACTIC_CENTER_ECI[:3]) * norm(boresight_eci_vector)")], note="the predicate rewritten on cosines WITHOUT flipping the comparison")
+V("c14-space-lighting-cosine-form-half-cone", "C14", "violation", "C14.R3", edits=[(SUF, "    return boresight_sun_angle >= cone_angle", "    return dot(sun_eci_unit_vector, boresight_eci_vector) / norm(boresight_eci_vector) <= cos(cone_angle / 2)")], note="cosine form with another threshold")
+V("c14-n-space-lighting-cosine-form", "C14", "pass", edits=[(SUF, "    return boresight_sun_angle >= cone_angle", "    return dot(sun_eci_unit_vector, boresight_eci_vector) / norm(boresight_eci_vector) <= cos(cone_angle)")])
 V("c14-revert-F7-raw-azimuth", "C14", "violation", "C14.R1", revert="2994fe8")
 V("c14-az-mask-and-for-or", "C14", "violation", "C14.R2", edits=[(SB, "            azimuth >= self.az_mask[0] or azimuth <= self.az_mask[1]\n", "            azimuth >= self.az_mask[0] and azimuth <= self.az_mask[1]\n")])
 V("c14-az-mask-wrap-branch-dropped", "C14", "violation", "C14.R2", edits=[(SB, "        if self.az_mask[0] > self.az_mask[1] and (\n", "        if self.az_mask[0] > self.az_mask[1] and azimuth < 0 and (\n")])
